@@ -85,7 +85,14 @@ func (p *metaParser) errf(msg string, args ...any) {
 	if len(args) > 0 {
 		msg = fmt.Sprintf(msg, args...)
 	}
-	p.onError(p.fset.Position(p.pos), msg)
+	pos := p.pos
+	if p.tok == token.EOF && p.fset.File(pos) != nil && int(pos) > p.fset.File(pos).Base() {
+		// The end of the section lies one past the newline that closes
+		// its last line: not a place in the user's file. Point at the end
+		// of that line, where the rest of the declaration is missing.
+		pos--
+	}
+	p.onError(p.fset.Position(pos), msg)
 }
 
 // Advances to the next token.
